@@ -41,6 +41,7 @@ def parseSLabel (w : String) : Option Sched.Label :=
     | [a, b] => a.toNat?.bind fun x => if b == "-" then some (.retry x none) else b.toNat?.map fun y => .retry x (some y)
     | _ => none
   | 'R' => body.toNat?.map .remove
+  | 'Q' => body.toNat?.map .requeue
   | 'f' => if body.isEmpty then some .flush else none
   | _ => none
 
